@@ -53,7 +53,7 @@ def bias(y_pred, y_test):
         The mean bias in percent.
 
     """
-    return np.mean(100.0 * y_test - y_pred / y_test)
+    return np.mean(100.0 * (y_pred - y_test) / y_test)
 
 
 def quantile_score(y_tau, y_test, taus):
